@@ -8,10 +8,14 @@ vf.oracle.geometry's 27-candidate minimum and exhaustive nearest-image search.
 """
 from __future__ import annotations
 
+import copy
+import pickle
+
 import numpy as np
 
 from ..core import fingerprint
 from ..gen import c02_pairs as GEN
+from ..gen import c02_reuse as RGEN
 from ..oracle import c02_sep as S
 from .. import monitor
 
@@ -38,6 +42,20 @@ RULE = ('case index -> cell kind (orthogonal / mildly tilted / tilted exactly to
         'direct separation = a shortest +-1 combination s of the cell vectors +- an offset of 1e-6..0.2 |s|, direct '
         'separation = f s + offset with 1/2 <= f < 1 (short, yet beaten by the image d - s; in flat / skew cells mostly '
         'with |d| below half the shortest cell vector); both points of the last two classes lie in the cell). '
+        'A third group runs HISTORIES on one object: a Box / System built along one of 14 construction paths (vects, '
+        'avect/bvect/cvect, default then assigned, data model, its JSON text, deepcopy or pickle of a Box already queried '
+        'with another cell, System from a data model, deepcopy of a queried System, safecopy, LAMMPS lengths, hi/lo, '
+        'a b c alpha beta gamma, crystal-family classmethods) is queried through one entry point (result kept), then '
+        'changed IN PLACE by one of 15 routes (box.vects =, box.set with each parameter set, box.set() back to the unit '
+        'cell, box.model(...), System.box_set with and without scale, System.wrap, box.origin =, pbc changed / the pbc '
+        'list edited in place, positions overwritten in the same arrays, another - also default-constructed - instance '
+        'queried in between), then queried through EVERY entry point (plus a one-atom System sharing the same Box) and '
+        'judged against the cell, periodicity and positions of NOW, then set back in place and asked the first question '
+        'again (bitwise the first answer), as are freshly built equal objects; kept results must not change, written-to '
+        'results must not change arguments or objects; route x first entry point x relation of the new cell (strained by '
+        '7 % / another kind / rescaled by 0.5..1e3) is a full cross per 270 cases, construction path, periodicity, scale, '
+        'origin class, index form and integer argument form (int64, int32, narrowest, unsigned, int lists / tuples, '
+        'float32, pbc as ints) rotate against it. '
         'A case is non-trivial when at least one of its pairs needed a non-zero lattice shift (or the setting is '
         'all-free, where the direct separation is the claim); distinct = fingerprint of (cell, origin, pbc, points).')
 ASSUMPTIONS = ['cells are right-handed with smallest perpendicular width >= 0.15 L (>= 0.06 L for the flat / needle / skew kinds; '
@@ -49,6 +67,14 @@ ASSUMPTIONS = ['cells are right-handed with smallest perpendicular width >= 0.15
                'the nearest-image clause is asserted only inside the guard the property states; outside it only '
                'lattice membership, the 27-candidate bound and |dvect| = dmag are asserted',
                'integer-valued lists are never passed as *positions* to System.dvect/dmag (documented: anything usable as an index is one)',
+               'history group: the oracle uses the cell the Box reports at the time of the query; where the harness handed the cell '
+               'over itself the report must agree with it to 1e-9 of the largest component (the documented zeroing threshold; '
+               '1e-12 L more for lattice parameters, 4 eps (|origin| + L) for hi/lo bounds)',
+               'history group: a query repeated on an object set back to bitwise the same cell, periodicity and positions must '
+               'return bitwise the first answer (the computation is deterministic); System.wrap and box_set(scale=True) are '
+               'taken as they are (the positions they produce are read back, not judged here)',
+               'Systems with zero atoms are not generated (Atoms refuses an empty position array before any C02 code runs); '
+               'System pickling is not used (not supported by Atoms.PropertyDict)',
                'oracle shares numpy/LAPACK with the code under test']
 
 CONFIG = {'quick': {'timeout': 600}, 'thorough': {'timeout': 3000}}
@@ -558,6 +584,459 @@ def run_case(ctx, am, i, cell, pbc, shape, oc, scale, rnd, nk, npairs, sample):
                    group=('sample:zeros:' if 'pattern' in cell else 'sample:') + shape)
 
 
+# ---------------------------------------------------------------------------------------------------------------
+# third case group: ONE Box / System is queried, changed in place, and queried again (vf/gen/c02_reuse.py)
+def _readback(rec, box, v_int, o_int, how, slack=0.0):
+    """The cell the Box describes now; where the harness knows what it handed over, the Box must describe that
+    (documented: components below 1e-9 of the largest one are zeroed).  The oracle then uses what was read back."""
+    vr, orr = np.array(box.vects), np.array(box.origin)
+    if v_int is not None:
+        m = np.abs(v_int).max()
+        tol = (1e-9 + 16 * S.EPS) * m + slack
+        ok = vr.shape == (3, 3) and bool(np.all(np.abs(vr - v_int) <= tol))
+        rec.check(ok, 'the Box describes the cell it was last given', f'reuse:{how}:box-readback:vects',
+                  **({} if ok else dict(got=vr, expected=v_int, tol=tol)))
+    if o_int is not None:
+        ok = bool(np.all(np.abs(orr - o_int) <= slack))
+        rec.check(ok, 'the Box has the origin it was last given', f'reuse:{how}:box-readback:origin',
+                  **({} if ok else dict(got=orr, expected=o_int)))
+    return vr, orr
+
+
+def _used_box(ctx, am, cell0, pbc):
+    """A Box with ANOTHER cell that has already been queried through dvect and dmag."""
+    b = am.Box(vects=cell0['vects'] * 1.37, origin=cell0['origin'] + 0.11 * cell0['L'])
+    c = dict(vects=np.array(b.vects), origin=np.array(b.origin))
+    _, _, _, a0, a1 = GEN.gen_pairs(ctx.rng, c, 4, offset=1, pbc=pbc)
+    am.dvect(a0, a1, b, pbc)
+    am.dmag(a0, a1, b, pbc)
+    return b
+
+
+def construct(ctx, am, sp, cell0, h):
+    """The object of the first query by the construction path of the case -> (box, system or None, slack)."""
+    rng = ctx.rng
+    cp, pbc = sp['cpath'], sp['pbc']
+    v0, o0 = cell0['vects'], cell0['origin']
+    s = None
+    slack = 0.0
+    if cp == 'vects':
+        box = am.Box(vects=v0, origin=o0)
+    elif cp == 'avect':
+        box = am.Box(avect=v0[0], bvect=v0[1], cvect=v0[2], origin=o0)
+    elif cp == 'default-then-assign':
+        box = am.Box()
+        box.vects = v0
+        box.origin = o0
+    elif cp == 'model':
+        box = am.Box(model=am.Box(vects=v0, origin=o0).model())
+    elif cp == 'model-json':
+        box = am.Box(model=am.Box(vects=v0, origin=o0).model().json())
+    elif cp == 'deepcopy-used':
+        box = copy.deepcopy(_used_box(ctx, am, cell0, pbc))
+        box.set(vects=v0, origin=o0)
+    elif cp == 'pickle-used':
+        box = pickle.loads(pickle.dumps(_used_box(ctx, am, cell0, pbc)))
+        box.vects = v0
+        box.origin = o0
+    elif cp == 'lengths':
+        box = am.Box(origin=o0, **RGEN.lammps_params(v0))
+    elif cp == 'hilo':
+        lp = RGEN.lammps_params(v0)
+        box = am.Box(xlo=o0[0], xhi=o0[0] + lp['lx'], ylo=o0[1], yhi=o0[1] + lp['ly'], zlo=o0[2], zhi=o0[2] + lp['lz'],
+                     xy=lp['xy'], xz=lp['xz'], yz=lp['yz'])
+        slack = 4 * S.EPS * (np.abs(o0).max() + cell0['L'])
+    elif cp == 'abc':
+        box = am.Box(origin=o0, **RGEN.abc_params(v0))
+        slack = 1e-12 * cell0['L']
+    elif cp == 'classmethod':
+        p, name = cell0['params'], sp['classmethod']
+        args = dict(cubic=('a',), hexagonal=('a', 'c'), tetragonal=('a', 'c'), trigonal=('a', 'alpha'), orthorhombic=('a', 'b', 'c'),
+                    monoclinic=('a', 'b', 'c', 'beta'), triclinic=('a', 'b', 'c', 'alpha', 'beta', 'gamma'))[name]
+        box = getattr(am.Box, name)(*[p[k] for k in args])
+        box.origin = o0
+        slack = 1e-12 * cell0['L']
+    elif cp == 'system-model':
+        src = am.System(atoms=am.Atoms(pos=rng.uniform(0, 1, (2 * h, 3)) * cell0['L']), box=am.Box(vects=v0, origin=o0), pbc=pbc)
+        s = am.System(model=src.model())
+        box = s.box
+    elif cp in ('system-deepcopy-used', 'safecopy'):
+        used = _used_box(ctx, am, cell0, pbc)
+        atoms = am.Atoms(pos=used.origin + rng.uniform(0, 1, (2 * h, 3)) @ used.vects)
+        if cp == 'safecopy':
+            s = am.System(atoms=atoms, box=used, pbc=pbc, safecopy=True)
+        else:
+            src = am.System(atoms=atoms, box=used, pbc=pbc)
+            src.dvect(0, 1)
+            src.dmag([0, 1], [2, 3])
+            s = copy.deepcopy(src)
+        s.box_set(vects=v0, origin=o0)
+        box = s.box
+    else:  # pragma: no cover
+        raise ValueError(cp)
+    return box, s, slack
+
+
+def ep_pairs(ep, posS, posT, h):
+    """The pairs an entry point of this group is asked about (harness's own copies of the positions)."""
+    if ep == 'displacement[final]':
+        return posT, posS                    # displacement(t, s): from t's atoms to s's, under s's cell
+    if ep == 'displacement[initial]':
+        return posS, posT                    # displacement(s, t, 'initial'): under s's cell
+    return posS[:h], posS[h:]
+
+
+def call_ep(ctx, am, ep, s, t, pbc_arg, h, form, tag):
+    """One query through entry point ``ep``; every one of them refers to the Box and pbc of system ``s``.
+    The position arguments of dvect / dmag are views of the system's own position array."""
+    res = None
+    with ctx.guard(f'{ep} answers for an object that was queried before', f'reuse:{ep}:exception:{tag}'):
+        pos = s.atoms.pos
+        if ep == 'dvect':
+            res = am.dvect(pos[:h], pos[h:], s.box, pbc_arg)
+        elif ep == 'dmag':
+            res = am.dmag(pos[:h], pos[h:], s.box, pbc_arg)
+        elif ep == 'System.dvect':
+            res = s.dvect(*RGEN.index_pair(h, form))
+        elif ep == 'System.dmag':
+            res = s.dmag(*RGEN.index_pair(h, form))
+        elif ep == 'displacement[final]':
+            res = am.displacement(t, s) if form % 2 == 0 else am.displacement(t, s, box_reference='final')
+        else:
+            res = am.displacement(s, t, 'initial') if form % 2 == 0 else am.displacement(s, t, box_reference='initial')
+    return res
+
+
+def judge_later(rec, route, ep, res, P0, P1, v1, o1, pbc1, v_old, pbc_old):
+    """A query made AFTER the in-place change, judged against the cell / periodicity / positions of NOW; counts the
+    rows on which the cell and periodicity of the first query would give another answer."""
+    t = _truth(P0, P1, v1, o1, pbc1)
+    vector = 'dmag' not in ep
+    j = (S.judge_vector if vector else S.judge_mag)(t, res)
+    for cid, text in (V_CLAUSES if vector else M_CLAUSES):
+        if cid not in j:
+            continue
+        ok = j[cid]
+        rec.check(ok.all(), text + ' [object queried before and changed in place since]', f'reuse:{route}:{ep}:{cid}',
+                  **({} if ok.all() else _bad_detail(t, ok, res)))
+        if cid == 'rows' and not ok.all():
+            return t
+    rec.count(f'reuse:rows:{route}:{ep}', t.n)
+    if t.n:
+        rec.count(f'reuse:image-needed:{route}:{ep}', int(S.hostility(t)['beaten'].sum()))
+        l_old, v_old27, _ = S.G.min27(t.d, v_old, pbc_old)
+        differ = (np.abs(l_old - t.l27) > 8 * t.bnd) | ((t.ntie27 == 1) & (np.linalg.norm(v_old27 - t.v27, axis=1) > 8 * t.bnd))
+        rec.count(f'reuse:stale-cell-would-differ:{route}:{ep}', int(differ.sum()))
+        rec.count(f'reuse:stale-cell-would-differ:{ep}', int(differ.sum()))
+    if vector and '_nint' in j and np.any(j['_nint'] != 0):
+        ST.shifted = True
+    return t
+
+
+def state_unchanged(rec, what, key, s, t, posS, posT, box, v, o, pbc_arg, pbc):
+    """Arguments and queried objects hold what the harness put there."""
+    ok = (np.array_equal(s.atoms.pos, posS) and np.array_equal(t.atoms.pos, posT) and np.array_equal(box.vects, v)
+          and np.array_equal(box.origin, o) and [bool(x) for x in pbc_arg] == [bool(x) for x in pbc]
+          and [bool(x) for x in s.pbc] == [bool(x) for x in pbc])
+    rec.check(ok, what, key)
+    return ok
+
+
+def run_reuse(ctx, am, j, h):
+    rec, rng = ctx.rec, ctx.rng
+    sp = RGEN.stratified_r(j)
+    route, first, cp, form = sp['route'], sp['first'], sp['cpath'], sp['index_form']
+    pbc0 = tuple(sp['pbc'])
+    pname = GEN.pbc_name(pbc0)
+    ST.scale = None
+    ST.shifted = False
+    for k_ in ('route', 'first', 'rel', 'cpath', 'origin'):
+        rec.count(f'class:reuse:{k_}:{sp[k_]}')
+    rec.count('class:reuse:scale:' + GEN.scale_name(sp['scale']))
+    rec.count('class:reuse:pbc:' + pname)
+    rec.count(f'class:reuse:route-x-first:{route}:{first}')
+    rec.count('class:reuse:index-form:' + RGEN.INDEX_FORMS[form])
+
+    # ---- construction
+    cell0 = RGEN.initial_cell(rng, sp)
+    built = None
+    with ctx.guard('Box / System can be built along the documented construction paths', f'reuse:construct:{cp}'):
+        built = construct(ctx, am, sp, cell0, h)
+    if built is None:
+        return
+    box, s, slack = built
+    v0, o0 = _readback(rec, box, cell0['vects'], cell0['origin'], 'construct:' + cp, slack)
+    if not RGEN.acceptable(v0):
+        rec.count('reuse:skipped(built cell not acceptable)')
+        return
+    rec.count('class:reuse:zeros:' + S.zero_class(v0))
+    cell = dict(cell0, vects=v0, origin=o0, L=np.linalg.norm(v0, axis=1).max())
+    _, _, classes, p0, p1 = GEN.gen_pairs(rng, cell, h, offset=j + j // 10, pbc=pbc0)
+    posS0, posT0 = np.vstack([p0, p1]), np.vstack([p1, p0])
+    posS, posT = posS0.copy(), posT0.copy()
+    pbc_arg = list(pbc0) if j % 2 == 0 else np.array(pbc0)          # ONE object, edited in place later
+    t = s1 = None
+    with ctx.guard('Systems can be built from positions, box and pbc', 'system:build'):
+        if s is None:
+            s = am.System(atoms=am.Atoms(pos=posS.copy()), box=box, pbc=pbc0)
+        else:
+            s.atoms.pos[:] = posS
+            s.pbc = pbc0
+        boxT = am.Box(vects=GEN.strained(rng, v0), origin=o0 + rng.uniform(-0.05, 0.05, 3) * cell['L'])
+        t = am.System(atoms=am.Atoms(pos=posT.copy()), box=boxT, pbc=GEN.PBCS[(GEN.PBCS.index(pbc0) + 3) % 8])
+        s1 = am.System(atoms=am.Atoms(pos=posS[:1].copy()), box=box, pbc=pbc0)      # one atom, SHARES the Box
+    if s is None or t is None or s1 is None:
+        return
+    rec.check(s.box is box and s1.box is box, 'a System built without safecopy refers to the Box it was given', 'reuse:system-box-identity')
+
+    # ---- first query (kept), judged by the monitors
+    keepA = call_ep(ctx, am, first, s, t, pbc_arg, h, form, 'first')
+    if keepA is None:
+        return
+    copyA = np.array(keepA, copy=True)
+    with ctx.guard('System.dvect / dmag of a one-atom system', 'reuse:one-atom:exception'):
+        r1 = s1.dvect(0, posS[h])
+        rec.check(np.shape(r1) == (3,), 'System.dvect of one pair returns one vector', 'reuse:one-atom:shape', got=np.shape(r1))
+        s1.dmag(0, posS[h])
+        rec.count('boundary:one-atom-system:first')
+    state_unchanged(rec, 'a query leaves its arguments and the queried objects unchanged', f'inputs-modified:{first}',
+                    s, t, posS, posT, box, v0, o0, pbc_arg, pbc0)
+
+    # ---- the change in place
+    v1i = o1i = None                # what the harness hands over (None: not the harness's to say)
+    pbc1 = pbc0
+    sl1 = 0.0
+    rel = sp['rel']
+    cur_s, cur_t, cur_box, cur_s1 = s, t, box, s1
+    with ctx.guard(f'in-place change {route}', f'reuse:change:{route}:exception'):
+        if route in RGEN.CELL_ROUTES and route != 'set()':
+            v1i, o1i, rel = RGEN.new_cell(rng, sp, v0, o0)
+            omit = sp['omit_origin']
+            if route == 'vects=':
+                box.vects = v1i
+                o1i = o0
+            elif route == 'set(vects)':
+                box.set(vects=v1i) if omit else box.set(vects=v1i, origin=o1i)
+            elif route == 'set(avect)':
+                box.set(avect=v1i[0], bvect=v1i[1], cvect=v1i[2]) if omit else box.set(avect=v1i[0], bvect=v1i[1], cvect=v1i[2], origin=o1i)
+            elif route == 'set(lengths)':
+                box.set(**RGEN.lammps_params(v1i)) if omit else box.set(origin=o1i, **RGEN.lammps_params(v1i))
+            elif route == 'set(hilo)':
+                lp = RGEN.lammps_params(v1i)
+                box.set(xlo=o1i[0], xhi=o1i[0] + lp['lx'], ylo=o1i[1], yhi=o1i[1] + lp['ly'], zlo=o1i[2], zhi=o1i[2] + lp['lz'],
+                        xy=lp['xy'], xz=lp['xz'], yz=lp['yz'])
+                omit = False
+                sl1 = 4 * S.EPS * (np.abs(o1i).max() + np.abs(v1i).max())
+            elif route == 'set(abc)':
+                ap = RGEN.abc_params(v1i)
+                box.set(**ap) if omit else box.set(origin=o1i, **ap)
+                v1i = S.G.vects_from_lammps(*S.G.lammps_from_abc(**ap))
+                sl1 = 1e-12 * np.abs(v1i).max()
+            elif route == 'model':
+                box.model(am.Box(vects=v1i, origin=o1i).model() if j % 2 else am.Box(vects=v1i, origin=o1i).model().json())
+                omit = False
+            elif route == 'box_set':
+                s.box_set(vects=v1i) if omit else s.box_set(vects=v1i, origin=o1i)
+            elif route == 'box_set(scale)':
+                s.box_set(vects=v1i, scale=True) if omit else s.box_set(vects=v1i, origin=o1i, scale=True)
+            if omit and route != 'vects=':
+                o1i = np.zeros(3)                       # documented default of set(...) without origin
+        elif route == 'set()':
+            box.set()
+            v1i, o1i, rel = np.eye(3), np.zeros(3), 'default'
+        elif route == 'wrap':
+            s.wrap()
+        elif route == 'origin=':
+            o1i = o0 + rng.uniform(-0.6, 0.6, 3) * cell['L']
+            box.origin = o1i
+            v1i = v0
+        elif route == 'pbc=':
+            pbc1 = GEN.PBCS[(GEN.PBCS.index(pbc0) + 1 + j % 7) % 8]
+            s.pbc = pbc1
+            s1.pbc = pbc1
+            pbc_arg[:] = pbc1
+        elif route == 'other-instance':
+            # nothing is changed: ANOTHER instance (every other time a default-constructed one) is queried in between
+            if j % 2 == 0:
+                cur_box = am.Box()
+                rel = 'default'
+            else:
+                v1i, o1i, rel = RGEN.new_cell(rng, sp, v0, o0)
+                cur_box = am.Box(vects=v1i, origin=o1i)
+            pbc1 = GEN.PBCS[(GEN.PBCS.index(pbc0) + j % 8) % 8]
+            cur_s = am.System(atoms=am.Atoms(pos=posS.copy()), box=cur_box, pbc=pbc1)
+            cur_t = am.System(atoms=am.Atoms(pos=posT.copy()), box=am.Box(vects=v0, origin=o0), pbc=pbc0)
+            cur_s1 = am.System(atoms=am.Atoms(pos=posS[:1].copy()), box=cur_box, pbc=pbc1)
+        rel = rel if route in RGEN.CELL_ROUTES or route == 'other-instance' else 'same-cell'
+        rec.count(f'class:reuse:route-x-relation:{route}:{rel}')
+    pbc_b = pbc_arg if cur_s is s else (list(pbc1) if j % 4 < 2 else np.array(pbc1))
+    v1, o1 = _readback(rec, cur_box, v1i, o1i, 'change:' + route, sl1)
+    if not RGEN.acceptable(v1, 0.004):
+        rec.count('reuse:skipped(changed cell not acceptable)')
+        return
+    if route == 'wrap':
+        rec.count('reuse:wrap-changed-the-box', int(not (np.array_equal(v1, v0) and np.array_equal(o1, o0))))
+    cell1 = dict(cell, vects=v1, origin=o1, L=np.linalg.norm(v1, axis=1).max())
+    if route in RGEN.KEEP_POS_ROUTES:
+        posS = np.array(cur_s.atoms.pos)                      # what atomman made of them (not this property's business)
+        posT = np.vstack([posS[h:], posS[:h]])
+        cur_t.atoms.pos[:] = posT
+    else:
+        # the SAME position arrays get the numbers of new pairs (drawn for the cell of now)
+        _, _, classes1, q0, q1 = GEN.gen_pairs(rng, cell1, h, offset=j + 3, pbc=pbc1)
+        posS, posT = np.vstack([q0, q1]), np.vstack([q1, q0])
+        cur_s.atoms.pos[:] = posS
+        cur_t.atoms.pos[:] = posT
+    cur_s1.atoms.pos[:] = posS[:1]
+    rec.count(f'reuse:atoms-moved-in-place:{route}', int(np.any(posS != posS0, axis=1).sum()))
+
+    # ---- queries after the change: every entry point, judged against the cell / periodicity / positions of NOW
+    later = {}
+    for ep in RGEN.EPS:
+        res = call_ep(ctx, am, ep, cur_s, cur_t, pbc_b, h, form, 'later')
+        if res is None:
+            continue
+        later[ep] = res
+        P0, P1 = ep_pairs(ep, posS, posT, h)
+        judge_later(rec, route, ep, res, P0, P1, v1, o1, pbc1, v0, pbc0)
+        state_unchanged(rec, 'a query leaves its arguments and the queried objects unchanged', f'inputs-modified:{ep}',
+                        cur_s, cur_t, posS, posT, cur_box, v1, o1, pbc_b, pbc1)
+        if isinstance(res, np.ndarray):
+            held = [('system positions', cur_s.atoms.pos), ('partner positions', cur_t.atoms.pos)]
+            ok = not any(np.shares_memory(res, a) for _, a in held)
+            rec.check(ok, 'a result does not share memory with the caller\'s arrays', f'alias:{ep}:result-shares-memory-with-arguments')
+            ok = not np.shares_memory(res, keepA) and not any(np.shares_memory(res, r_) for e_, r_ in later.items()
+                                                               if e_ != ep and isinstance(r_, np.ndarray))
+            rec.check(ok, 'results of different calls do not share memory', f'alias:{ep}:result-shares-memory-with-another-result')
+            rec.count(f'alias:memory-checked:{ep}')
+    # cross-checks that need no oracle: entry points that must agree bit for bit under the same cell
+    if 'dvect' in later:
+        dv = np.reshape(later['dvect'], (-1, 3))
+        if 'System.dvect' in later:
+            rec.check(np.array_equal(np.reshape(later['System.dvect'], (-1, 3)), dv),
+                      'System.dvect equals atomman.dvect under the system\'s own box and pbc', f'reuse:{route}:System.dvect-vs-module')
+        if 'displacement[final]' in later:
+            rec.check(np.array_equal(np.reshape(later['displacement[final]'], (-1, 3))[h:], dv),
+                      'displacement equals dvect atom by atom under the chosen reference box and pbc', f'reuse:{route}:displacement-vs-dvect:final')
+        if 'displacement[initial]' in later:
+            rec.check(np.array_equal(np.reshape(later['displacement[initial]'], (-1, 3))[:h], dv),
+                      'displacement equals dvect atom by atom under the chosen reference box and pbc', f'reuse:{route}:displacement-vs-dvect:initial')
+        if 'dmag' in later and np.shape(later['dmag']) == (h,):
+            bnd = 64 * S.EPS * (np.linalg.norm(posS[:h], axis=1) + np.linalg.norm(posS[h:], axis=1) + 3 * cell1['L'])
+            rec.check(bool(np.all(np.abs(np.linalg.norm(dv, axis=1) - later['dmag']) <= bnd)),
+                      'length of the separation vector equals the scalar periodic distance', f'reuse:{route}:dvect-vs-dmag')
+            if 'System.dmag' in later:
+                rec.check(np.array_equal(np.reshape(later['System.dmag'], (-1,)), later['dmag']),
+                          'System.dmag equals atomman.dmag under the system\'s own box and pbc', f'reuse:{route}:System.dmag-vs-module')
+        rec.count('reuse:cross-checked:' + route)
+    # the one-atom system that shares the (changed) Box, and a one-atom displacement
+    with ctx.guard('System.dvect / dmag / displacement of a one-atom system', 'reuse:one-atom:exception'):
+        r1 = cur_s1.dvect(0, posS[h])
+        judge_later(rec, route, 'System.dvect[one-atom system sharing the Box]', np.reshape(r1, (-1, 3)), posS[:1], posS[h:h + 1],
+                    v1, o1, pbc1, v0, pbc0)
+        m1 = cur_s1.dmag(0, posS[h])
+        judge_later(rec, route, 'System.dmag[one-atom system sharing the Box]', np.reshape(m1, (-1,)), posS[:1], posS[h:h + 1],
+                    v1, o1, pbc1, v0, pbc0)
+        z = cur_s1.dvect(0, 0)
+        rec.check(np.shape(z) == (3,) and not np.any(z), 'an atom is at zero separation from itself', 'reuse:one-atom:self-separation', got=z)
+        s1b = am.System(atoms=am.Atoms(pos=posS[h:h + 1].copy()), box=cur_box, pbc=pbc1)
+        d1 = am.displacement(cur_s1, s1b, box_reference=('final', 'initial')[j % 2])
+        rec.check(np.shape(d1) == (1, 3) and np.array_equal(np.reshape(d1, 3), np.reshape(r1, 3)),
+                  'displacement of one-atom systems is the one separation', 'reuse:one-atom:displacement', got=d1, expected=r1)
+        rec.count('boundary:one-atom-system:later')
+
+    # ---- results of earlier calls are values: later calls do not change them, writing to them changes nothing else
+    rec.check(np.array_equal(keepA, copyA), 'a returned result is not changed by later calls', f'reuse:kept-result-changed-by-later-calls:{first}',
+              got=keepA, expected=copyA)
+    rec.count(f'reuse:kept-result-compared:{first}')
+    nscribbled = 0
+    for ep, res in later.items():
+        if isinstance(res, np.ndarray) and res.flags.writeable and res.size:
+            res[...] = np.nan
+            nscribbled += 1
+    rec.count('alias:results-overwritten-by-the-caller', nscribbled)
+    state_unchanged(rec, 'writing to a returned array changes neither the caller\'s arguments nor the queried objects',
+                    'alias:writing-to-a-result-changed-arguments-or-objects', cur_s, cur_t, posS, posT, cur_box, v1, o1, pbc_b, pbc1)
+    rec.check(np.array_equal(keepA, copyA), 'writing to a returned array does not change an earlier result',
+              f'alias:writing-to-a-result-changed-an-earlier-result:{first}')
+
+    # ---- restore in place (the object set a second time) and repeat the first query: same arguments, same value
+    with ctx.guard('the object can be set back in place', 'reuse:restore:exception'):
+        if j % 2 == 0:
+            box.set(vects=v0, origin=o0)
+        else:
+            box.vects = v0
+            box.origin = o0
+        s.pbc = pbc0
+        s1.pbc = pbc0
+        pbc_arg[:] = pbc0
+        s.atoms.pos[:] = posS0
+        t.atoms.pos[:] = posT0
+        s1.atoms.pos[:] = posS0[:1]
+    again = call_ep(ctx, am, first, s, t, pbc_arg, h, form, 'repeat')
+    if again is not None:
+        rec.check(np.shape(again) == np.shape(copyA) and np.array_equal(again, copyA),
+                  'the same query with equal arguments gives the same value whatever happened in between',
+                  f'reuse:repeat-after-restore-differs:{first}', route=route, got=again, expected=copyA)
+        rec.count(f'reuse:repeat-compared:{first}')
+        rec.count(f'reuse:repeat-compared:route:{route}')
+    # ... and so do freshly built, equal objects
+    fresh = None
+    with ctx.guard('fresh equal objects', 'reuse:fresh:exception'):
+        boxF = am.Box(vects=v0, origin=o0)
+        sF = am.System(atoms=am.Atoms(pos=posS0.copy()), box=boxF, pbc=pbc0)
+        tF = am.System(atoms=am.Atoms(pos=posT0.copy()), box=am.Box(vects=np.array(t.box.vects), origin=np.array(t.box.origin)), pbc=t.pbc)
+        fresh = call_ep(ctx, am, first, sF, tF, tuple(pbc0), h, (form + 1) % 4, 'fresh')
+    if fresh is not None:
+        rec.check(np.shape(fresh) == np.shape(copyA) and np.array_equal(fresh, copyA),
+                  'freshly built equal objects give the same value as the object with a history',
+                  f'reuse:fresh-equal-objects-differ:{first}', route=route, got=fresh, expected=copyA)
+        rec.count(f'reuse:fresh-compared:{first}')
+
+    # ---- integer-valued positions in every documented argument form (numpy.ndarray of any integer dtype, list, tuple)
+    a0, a1, f0, f1, label = RGEN.integer_points(posS0[:h], posS0[h:], sp['arg_form'])
+    pbc_form = pbc_arg
+    if sp['arg_form'] == 'bool-pbc-int':
+        pbc_form = [int(x) for x in pbc0] if j % 2 else np.array(pbc0, dtype=int)
+        label = 'int64+pbc-as-' + ('int-list' if j % 2 else 'int-array')
+    rec.count('class:argform:' + label.split(':')[0])
+    gi, mi = call_both(ctx, am, a0, a1, box, pbc_form, 'argform:' + label.split(':')[0])
+    gf, mf = call_both(ctx, am, f0, f1, box, pbc0, 'argform:float64')
+    if gi is not None and gf is not None and mi is not None and mf is not None:
+        rec.check(np.array_equal(gi, gf) and np.array_equal(mi, mf),
+                  'integer-valued positions give the same answer in every argument form (the conversion to float64 is exact)',
+                  'argform:' + label.split(':')[0] + ':differs-from-float64', got=gi, expected=gf)
+        t_ = _truth(f0, f1, v0, o0, pbc0)
+        rec.count('argform:rows:' + label.split(':')[0], t_.n)
+        rec.count('argform:image-needed', int(S.hostility(t_)['beaten'].sum()))
+
+    # ---- refusals the statement requires, per argument form, on an object with a history
+    k3 = min(3, h)
+    forms = [('list', posS0[:k3].tolist(), posS0[:2].tolist()), ('tuple', tuple(map(tuple, posS0[:2])), tuple(map(tuple, posS0[:k3]))),
+             ('int-array', np.rint(posS0[:k3]).astype(np.int64), np.rint(posS0[:2]).astype(np.int64)),
+             ('float32', posS0[:2].astype(np.float32), posS0[:k3].astype(np.float32))]
+    fname, b0, b1 = forms[j % 4]
+    for name_, fn in (('dvect', am.dvect), ('dmag', am.dmag)):
+        must_refuse(ctx, fn, f'positions of incompatible lengths ({fname}) are refused with ValueError', f'{name_}:mismatch:{fname}',
+                    b0, b1, box, pbc_arg)
+    must_refuse(ctx, s.dvect, 'System.dvect refuses index arguments of different lengths with ValueError', 'System.dvect:mismatch:history',
+                [slice(0, 3), [0, 1, 2], np.arange(3)][j % 3], [[0, 1], slice(0, 2), np.arange(2)][(j // 3) % 3])
+    must_refuse(ctx, s.dmag, 'System.dmag refuses index arguments of different lengths with ValueError', 'System.dmag:mismatch:history',
+                [[0, 1], slice(0, 2), np.arange(2)][j % 3], [slice(0, 3), [0, 1, 2], np.arange(3)][(j // 3) % 3])
+    ref = ('final', 'initial', None)[j % 3]
+    must_refuse(ctx, am.displacement, 'displacement refuses systems with different numbers of atoms with ValueError, whatever the reference',
+                f'displacement:natoms-mismatch:ref={ref}', *((s, s1, ref) if j % 2 else (s1, s, ref)))
+    must_refuse(ctx, am.displacement, 'displacement refuses an unknown box_reference with ValueError',
+                'displacement:bad-reference:history', s, t, ('Final', 'INITIAL', 'none', 'middle', '')[j % 5])
+
+    rec.case(('reuse', route, first, rel, pname, cp), nontrivial=ST.shifted or not any(pbc1),
+             fp=fingerprint(v0, o0, v1, o1, pname, posS0, posS))
+    if j % RGEN.NCOMBO in (7, 100, 200):
+        rec.sample(dict(route=route, first_query=first, relation=rel, construction=cp, pbc=pname, pbc_after=GEN.pbc_name(pbc1),
+                        vects_before=v0, origin_before=o0, vects_after=v1, origin_after=o1, pair_classes=classes[:6],
+                        p0=posS[:2], p1=posS[h:h + 2]), group='sample:reuse:' + route)
+
+
 def run(ctx):
     import atomman as am
     rec = ctx.rec
@@ -585,6 +1064,12 @@ def run(ctx):
         rec.count('class:zcell:' + kind + ':shape=' + shape)
         run_case(ctx, am, i, cell, pbc, shape, oc, scale, rnd, GEN.NZ, npairs, i % GEN.NZCOMBO in (5, 70, 139, 204, 269, 334, 399, 464))
     ST.scale = None
+
+    # third group: one Box / System queried, changed in place, queried again through every entry point, restored and
+    # queried once more (full cross route x first entry point x relation of the new cell per 270 cases)
+    nr_cases = RGEN.NCOMBO * ctx.pick(1, 1 if asan else 8)
+    for i in ctx.cases('reuse', nr_cases):
+        run_reuse(ctx, am, i, ctx.pick(12, 12 if asan else 24))
 
     for k, v_ in monitor.calls.items():
         if isinstance(v_, int):
@@ -716,6 +1201,70 @@ def run(ctx):
                 rec.floor(f'hostile:{ep}:axis-wrap-wrong:lower-triangular:pbc={pn}', 300)
             if any(pbc):
                 rec.floor(f'hostile:{ep}:axis-wrap-wrong:other-zeros:pbc={pn}', 200)
+    # ---- third group: one object queried, changed in place and queried again.  Class floors are exact consequences of
+    # the stratification (270 cases per build flavour: 18 per route, 3 per route x first entry point, 45 per first entry
+    # point); row floors are ~1/4 of the merged count of the quick tier (two build flavours) over seeds 0..3.
+    one_atom = ('System.dvect[one-atom system sharing the Box]', 'System.dmag[one-atom system sharing the Box]')
+    for route in RGEN.ROUTES:
+        rec.floor('class:reuse:route:' + route, 12)
+        rec.floor('reuse:cross-checked:' + route, 9)
+        rec.floor('reuse:repeat-compared:route:' + route, 9)
+        rec.floor('reuse:atoms-moved-in-place:' + route, 100)
+        for ep in RGEN.EPS:
+            rec.floor(f'class:reuse:route-x-first:{route}:{ep}', 2)
+            disp = 2 if ep.startswith('displacement') else 1
+            rec.floor(f'reuse:rows:{route}:{ep}', 100 * disp)
+            rec.floor(f'reuse:image-needed:{route}:{ep}', 50 * disp)
+            if route in RGEN.CELL_ROUTES or route in ('pbc=', 'other-instance'):
+                # rows on which the cell / periodicity of the FIRST query gives another answer than those of now
+                rec.floor(f'reuse:stale-cell-would-differ:{route}:{ep}', 60 * disp)
+        for ep in one_atom:
+            rec.floor(f'reuse:rows:{route}:{ep}', 9)
+            rec.floor(f'reuse:image-needed:{route}:{ep}', 3)
+            if route in RGEN.CELL_ROUTES or route in ('pbc=', 'other-instance'):
+                rec.floor(f'reuse:stale-cell-would-differ:{route}:{ep}', 4)
+        if route in RGEN.CELL_ROUTES and route != 'set()':
+            for rel in RGEN.RELS:
+                rec.floor(f'class:reuse:route-x-relation:{route}:{rel}', 3)
+    rec.floor('class:reuse:route-x-relation:set():default', 9)
+    rec.floor('class:reuse:route-x-relation:other-instance:default', 4)
+    rec.floor('reuse:wrap-changed-the-box', 8)
+    for ep in RGEN.EPS:
+        rec.floor('class:reuse:first:' + ep, 22)
+        rec.floor('reuse:kept-result-compared:' + ep, 22)
+        rec.floor('reuse:repeat-compared:' + ep, 22)
+        rec.floor('reuse:fresh-compared:' + ep, 22)
+        rec.floor('alias:memory-checked:' + ep, 130)
+    rec.floor('alias:results-overwritten-by-the-caller', 800)
+    for cp in RGEN.CPATHS:
+        rec.floor('class:reuse:cpath:' + cp, 9)
+    for rel in RGEN.RELS:
+        rec.floor('class:reuse:rel:' + rel, 45)
+    for sc in GEN.SCALES:
+        rec.floor('class:reuse:scale:' + GEN.scale_name(sc), 13)
+    for pbc in GEN.PBCS:
+        rec.floor('class:reuse:pbc:' + GEN.pbc_name(pbc), 16)
+    for oc in GEN.ORIGINS:
+        rec.floor('class:reuse:origin:' + oc, 45)
+    for name in RGEN.INDEX_FORMS:
+        rec.floor('class:reuse:index-form:' + name, 33)
+    for zc in ('diagonal', 'lower-triangular', 'full'):
+        rec.floor('class:reuse:zeros:' + zc, 19)
+    rec.floor('boundary:one-atom-system:first', 130)
+    rec.floor('boundary:one-atom-system:later', 130)
+    for name in ('int64', 'int32', 'narrowest-int', 'unsigned', 'int-list', 'int-tuple', 'float32-of-int', 'int64+pbc-as-int-list',
+                 'int64+pbc-as-int-array'):
+        rec.floor('class:argform:' + name, 8)
+        rec.floor('argform:rows:' + name, 96)
+    rec.floor('argform:image-needed', 400)
+    for fname in ('list', 'tuple', 'int-array', 'float32'):
+        rec.floor('refused:dvect:mismatch:' + fname, 33)
+        rec.floor('refused:dmag:mismatch:' + fname, 33)
+    rec.floor('refused:System.dvect:mismatch:history', 130)
+    rec.floor('refused:System.dmag:mismatch:history', 130)
+    rec.floor('refused:displacement:bad-reference:history', 130)
+    for ref in ('final', 'initial', None):
+        rec.floor(f'refused:displacement:natoms-mismatch:ref={ref}', 45)
     rec.floor('refused:dvect:mismatch', 50)
     rec.floor('refused:dmag:mismatch', 50)
     rec.floor('refused:System.dvect:mismatch', 20)
